@@ -170,7 +170,20 @@ NeedsEnd(l) == l.version # <<>> /\ l.version[1].m < 56
 \* NAMESCASESENSITIVE and NOWIREEXTENSIONATPIN are valid up to version 5.4 only (the default version is 5.8)
 Obsolete(l) == (l.names_case_sensitive # <<>> \/ l.no_wire_extension_at_pin # <<>>)
                /\ (l.version = <<>> \/ l.version[1].m > 54)
-Cases == { [lib |-> l, rev |-> r, endlib |-> e] : l \in AllLibs, r \in BOOLEAN, e \in BOOLEAN }
+\* Composed libraries: one random choice from every family merged into ONE library (header statements, units, property
+\* definitions, a site, a via and three macros), NCompose of them (TLC's RandomElement, reproducible under -seed).
+\* Statement interactions (what follows what, which END closes which block) are exercised here; the per-construct
+\* libraries above say which construct is misread when something fails.
+CONSTANT NCompose
+NoSource(ms, tag) == [i \in 1..Len(ms) |-> [ms[i] EXCEPT !.source = <<>>, !.name = tag \o ms[i].name]]
+Compose(i) ==
+  LET h == RandomElement(HeaderLibs)  u == RandomElement(UnitLibs)  pd == RandomElement(PropDefLibs)
+      st == RandomElement(SiteLibs)   v == RandomElement(ViaLibs)
+      a == RandomElement(MacroLibs)   b == RandomElement(PinLibs)   g == RandomElement(GeomLibs)
+  IN [h EXCEPT !.units = u.units, !.property_definitions = pd.property_definitions, !.sites = st.sites, !.vias = v.vias,
+               !.macros = NoSource(a.macros, "A_") \o NoSource(b.macros, "B_") \o NoSource(g.macros, "G_")]
+Composed == { [lib |-> Compose(i), rev |-> (i % 2 = 0), endlib |-> TRUE] : i \in 1..NCompose }
+Cases == { [lib |-> l, rev |-> r, endlib |-> e] : l \in AllLibs, r \in BOOLEAN, e \in BOOLEAN } \cup Composed
 
 Init == c \in Cases
 Next == UNCHANGED c
